@@ -67,6 +67,13 @@ def model_specs():
     two["weights"] = [{"datasets": ["d1", "d2"], "global_interval": (600.0, 650.0), "model_interval": (0.0, 1.0), "value": 0.5},
                       {"datasets": ["d2"], "value": 2.0}]  # fmt: skip
     out["two_groups_weights"] = two
+    # compartments labelled by numbers (strings "1", "2", "3": K-matrix keys are written as "(2, 1)")
+    num = copy.deepcopy(base)
+    ren = {"s1": "1", "s2": "2", "s3": "3"}
+    num["k_matrix"] = {"km": {"matrix": {"<-".join(ren[x] for x in k.split("<-")): v for k, v in base["k_matrix"]["km"]["matrix"].items()}}}
+    num["initial_concentration"]["j"]["compartments"] = ["1", "2", "3"]
+    num["initial_concentration"]["j"]["exclude_from_normalize"] = ["3"]
+    out["numeric_compartments"] = num
     return out
 
 
@@ -232,6 +239,12 @@ def compare_results(orig, loaded, options, where):
     for name in ("optimized_parameters", "initial_parameters"):
         for v in compare_parameters(getattr(orig, name), getattr(loaded, name), where):
             vs.append(dict(v, signature=f"result-{name}/" + v["signature"]))
+    # the options of the scheme stored with the result (falsy values are values too)
+    for f in ("clp_link_tolerance", "clp_link_method", "maximum_number_function_evaluations", "add_svd", "ftol", "gtol", "xtol",
+              "optimization_method"):  # fmt: skip
+        a, b = getattr(orig.scheme, f), getattr(loaded.scheme, f)
+        if a != b or isinstance(a, bool) != isinstance(b, bool):
+            vs.append(V("result-scheme-option-changed", option=f, saved=repr(a), loaded=repr(b), where=where))
     for s in STATS:
         a, b = getattr(orig, s), getattr(loaded, s)
         same = (a == b) or (isinstance(a, float) and isinstance(b, float) and (math.isnan(a) and math.isnan(b)))
